@@ -77,7 +77,7 @@ func handleALIGNB(params x86genParams, ctx *CodeGenContext) ([]byte, error) {
 	}
 
 	// x86genParams から現在のバイトコード長を取得
-	currentLength := params.MachineCodeLen
+	currentLength := int(ctx.DollarPosition) + params.MachineCodeLen
 	paddingSize := (alignBoundary - (currentLength % alignBoundary)) % alignBoundary
 
 	if paddingSize > 0 {
